@@ -174,7 +174,7 @@ theorem c10_store_then_load (d : Disk) (new : Snapshot) (hw : WfSnapshot new) :
 /-! ## RetainManager: which snapshot reaches the file (clause 1 at the level of `save_retain_store`) -/
 
 /-- **Invariant.**  Through any sequence of `save_snapshot` calls with retainable snapshots the
-retain file holds exactly the manager's `last_snapshot`. -/
+retain file holds exactly the encoded image of the manager's `last_snapshot`. -/
 theorem c10_manager_file_is_last_stored (d0 : Disk) (seq : List Snapshot)
     (hw : ∀ s ∈ seq, WfSnapshot s) :
     (seq.foldl (fun (m : Mgr) s => (m.save s).1) ⟨none, d0⟩).Consistent := by
@@ -188,49 +188,64 @@ theorem c10_manager_file_is_last_stored (d0 : Disk) (seq : List Snapshot)
     exact ih (fun x hx => hw x (List.mem_cons_of_mem _ hx)) _
       (Mgr.save_consistent m s hm (hw s List.mem_cons_self))
 
-/-- **Partial.**  A save reports success, and the saved snapshot is what the next load returns —
-provided the change detection does not mistake it for a different remembered snapshot
-(`saveVisible`, decidable; it fails exactly when the two are `PartialEq`-equal but not identical). -/
-theorem c10_manager_save_partial (m : Mgr) (s : Snapshot) (hc : m.Consistent) (hw : WfSnapshot s)
-    (hg : m.saveVisible s = true) :
-    (m.save s).2 = .ok () ∧ load (m.save s).1.disk = .ok s := by
-  obtain ⟨hr, hl⟩ := Mgr.save_result m s hw
-  refine ⟨hr, ?_⟩
-  have hc' := Mgr.save_consistent m s hc hw
-  rcases hl with h | ⟨l, hml, hl', he⟩
-  · exact hc' s h
-  · unfold Mgr.saveVisible at hg
-    simp only [hml, he, Bool.not_true, Bool.false_or, decide_eq_true_eq] at hg
-    subst hg
-    exact hc' l hl'
+/-- **Clause 1 at the manager.**  A save of a retainable snapshot reports success, and the saved
+snapshot — bit for bit, whether or not the write was skipped as "unchanged" — is what the next
+load returns. -/
+theorem c10_manager_save (m : Mgr) (s : Snapshot) (hc : m.Consistent) (hw : WfSnapshot s) :
+    (m.save s).2 = .ok () ∧ load (m.save s).1.disk = .ok s :=
+  Mgr.save_result m s hc hw
 
-/-- Without the guard the statement is false of the code: in every case the file holds a snapshot
-that `PartialEq` cannot tell from the one just saved. -/
-theorem c10_manager_save_upto_eq (m : Mgr) (s : Snapshot) (hc : m.Consistent) (hw : WfSnapshot s) :
-    (m.save s).2 = .ok () ∧
-    ∃ stored, load (m.save s).1.disk = .ok stored ∧ (stored = s ∨ snapshotEq stored s = true) := by
-  obtain ⟨hr, hl⟩ := Mgr.save_result m s hw
-  refine ⟨hr, ?_⟩
-  have hc' := Mgr.save_consistent m s hc hw
-  rcases hl with h | ⟨l, _, hl', he⟩
-  · exact ⟨s, hc' s h, .inl rfl⟩
-  · exact ⟨l, hc' l hl', .inr he⟩
+/-- After any sequence of `save_snapshot` calls with retainable snapshots, starting from a fresh
+manager and any directory contents, the next load returns the snapshot saved last. -/
+theorem c10_manager_load_is_last_saved (d0 : Disk) (seq : List Snapshot) (s : Snapshot)
+    (hw : ∀ x ∈ seq, WfSnapshot x) (hs : WfSnapshot s) :
+    load ((seq ++ [s]).foldl (fun (m : Mgr) x => (m.save x).1) ⟨none, d0⟩).disk = .ok s := by
+  rw [List.foldl_append]
+  exact (c10_manager_save _ s (c10_manager_file_is_last_stored d0 seq hw) hs).2
+
+/-- The write is skipped only when the file already holds the very image `store` would write. -/
+theorem c10_manager_skip_only_identical (m : Mgr) (s : Snapshot) (bytes : Bytes) (hc : m.Consistent)
+    (hb : encodeSnapshot s = .ok bytes) (h : m.unchanged s = true) : m.disk.main = some bytes := by
+  unfold Mgr.unchanged at h
+  cases hl : m.last with
+  | none => simp [hl] at h
+  | some l =>
+    obtain ⟨⟨lb, hlb, hmain⟩, _⟩ := hc l hl
+    simp only [hl, sameRetainImage, hlb, hb, Except.toOption, Bool.and_eq_true, beq_iff_eq,
+      Option.some.injEq] at h
+    rw [hmain, h.2]
 
 def exSnapLater : Snapshot := .cons [0x78] (.real 0x3F800000) .nil
 def exZero : Snapshot := .cons [0x78] (.real 0) .nil
 def exNegZero : Snapshot := .cons [0x78] (.real 0x80000000) .nil
 
-/-- **Counterexample (open finding C10-negzero-not-saved).**  A retained REAL goes from `+0.0`
-to `-0.0`: `save_snapshot` compares with `==`, finds the snapshots equal, skips the write and
-reports success; the file still holds `+0.0`. -/
-theorem c10_manager_counterexample_negzero :
-    WfSnapshot exZero ∧ WfSnapshot exNegZero ∧ exZero ≠ exNegZero ∧
+/-- **Regression (repaired finding C10-negzero-not-saved).**  A retained REAL goes from `+0.0` to
+`-0.0`: the snapshots are `==` but their images differ, so the second save is written and the
+file holds `-0.0`. -/
+theorem c10_manager_negzero_saved :
+    WfSnapshot exZero ∧ WfSnapshot exNegZero ∧ exZero ≠ exNegZero ∧ snapshotEq exZero exNegZero = true ∧
     ((Mgr.save ⟨none, ⟨none, none⟩⟩ exZero).1.save exNegZero).2 = .ok () ∧
-    load ((Mgr.save ⟨none, ⟨none, none⟩⟩ exZero).1.save exNegZero).1.disk = .ok exZero := by
+    load ((Mgr.save ⟨none, ⟨none, none⟩⟩ exZero).1.save exNegZero).1.disk = .ok exNegZero := by
   decide
 
-/-- The guard of the partial theorem is satisfiable (first save, or a really different value). -/
-example : (Mgr.save ⟨none, ⟨none, none⟩⟩ exZero).1.saveVisible exSnapLater = true := by decide
+/-- **Counterexample for the pre-repair change detection** (`last_snapshot == Some(&snapshot)`
+alone): it finds the two snapshots equal, skips the write and reports success; the file still
+holds `+0.0`.  (This is the routine /repo had before the repair of finding C10-negzero-not-saved;
+the model distinguishes it from the repaired one.) -/
+theorem c10_manager_partialeq_counterexample :
+    WfSnapshot exZero ∧ WfSnapshot exNegZero ∧ exZero ≠ exNegZero ∧
+    ((Mgr.savePartialEq ⟨none, ⟨none, none⟩⟩ exZero).1.savePartialEq exNegZero).2 = .ok () ∧
+    load ((Mgr.savePartialEq ⟨none, ⟨none, none⟩⟩ exZero).1.savePartialEq exNegZero).1.disk = .ok exZero := by
+  decide
+
+/-- The hypotheses of the manager theorems are satisfiable, in both branches of the change
+detection: a consistent manager that skips (same snapshot again) and one that writes. -/
+example : (Mgr.save ⟨none, ⟨none, none⟩⟩ exZero).1.unchanged exZero = true ∧
+    (Mgr.save ⟨none, ⟨none, none⟩⟩ exZero).1.unchanged exSnapLater = false ∧
+    WfSnapshot exSnapLater := by decide
+
+example : (Mgr.save ⟨none, ⟨none, none⟩⟩ exZero).1.Consistent :=
+  c10_manager_file_is_last_stored ⟨none, none⟩ [exZero] (by decide)
 
 /-! ## Regression: the save routine before the repair (commit f87ef0b) was not crash atomic -/
 
